@@ -29,6 +29,7 @@ import TonVerif.Proofs.BocConform
 import TonVerif.Proofs.BocSemFinal
 import TonVerif.Proofs.SrcBocWidths
 import TonVerif.Proofs.SrcBocEmit
+import TonVerif.Proofs.SrcBocAny
 
 namespace TonVerif.Properties.C04
 open TonVerif TonVerif.Model TonVerif.Spec.Boc TonVerif.Proofs.BocEmit TonVerif.Proofs.BocOrder TonVerif.Proofs.BocSem
@@ -320,9 +321,15 @@ end Src
 `Generated.BocEmitSrc.serialize / order / to_boc` are REGENERATED from `Cell.serialize`, `Cell.order`, `Cell.to_boc`
 (pytoniq_core/boc/cell.py) on every run (harness/translate/bocemit.py, pydict.py).  A constructed `Cell` is a `PCell`; a dict / set
 of cells is an insertion-ordered association list keyed by `PCell.key` (= `Cell.__hash__`; TonVerif/PyDict.lean); `while stack:`
-runs with an iteration budget `fuel`.  The theorems below show, for ALL cell objects, option sets and budgets, that the
-regenerated functions equal the hand model about which `c04_conforms` is proved — so the property holds for the regenerated
-emitter, and a change of any line of these methods breaks a proof obligation. -/
+runs with an iteration budget `fuel`.
+
+The theorems of THIS section are about the regenerated functions AS WRITTEN and do not go through the hand model of the traversal
+(`PCell.order`): `Cell.serialize` and the layout part of `Cell.to_boc` equal the (order agnostic) hand model for all inputs;
+`Cell.order` is judged by an invariant of its own loop (`c04_src_order_valid_any`: a VALID ORDER for whichever order the references
+are pushed in; Proofs/SrcOrderAny.lean); `c04_src_conforms_any_order` composes them with `c04_conforms_any_order` — THE PROPERTY
+for the regenerated emitter.  The additional equality of the regenerated traversal with the hand model `PCell.order` /
+`PCell.toBoc` (same visiting order, byte-identical output) is the separate module Properties/C04Model.lean (`c04_src_order`,
+`c04_src_to_boc`): it breaks when the source switches to another valid order, these theorems do not. -/
 section SrcEmit
 open TonVerif.Proofs.SrcBocEmit TonVerif.Proofs.SrcDict TonVerif.Generated.BocEmitSrc
 
@@ -337,52 +344,87 @@ theorem c04_src_serialize (c : PCell) (idx : Py.KDict PCell Nat) (m : Std.HashMa
 theorem c04_src_serialize_model (idx : Std.HashMap Nat Nat) (cells : List PCell) :
     flattenCells idx cells = cells.mapM (flattenOne idx) := rfl
 
-/-- `Cell.order({})` regenerated = the hand model `PCell.order` for every cell object and every iteration budget: the explicit
-stack, the visited set, the post-order list and the re-insertion into the result dict produce the same key sequence (same
-decision to return); and the keys of the returned dict are pairwise distinct whatever the hash function is. -/
-theorem c04_src_order (fuel : Nat) (p : PCell) :
-    order fuel p [] = (p.order fuel).map dictOf ∧
-    ∀ d, order fuel p [] = some d → ((Py.dictKeys d).map PCell.key).Nodup := by
-  refine ⟨src_order_eq fuel p, fun d h => ?_⟩
+/-- **`Cell.order({})` regenerated returns a VALID ORDER** — for the function as written, whichever order it pushes the references
+of an expanded cell in (`for ref in cell.refs` or `for ref in reversed(cell.refs)`): for every cell object, every iteration budget
+for which it returns, under the local no-collision hypothesis, the keys of the returned dict are, in iteration order: the root
+first, every distinct sub-cell of the root exactly once and nothing else, every reference of a cell strictly after the cell; and
+the dict holds nothing but these keys.  Proved by an invariant over the regenerated `while stack:` loop (explicit stack with
+`(cell, expanded)` markers, visited set, post-order list) and the re-insertion loop; NOT through the hand model `PCell.order`. -/
+theorem c04_src_order_valid_any (fuel : Nat) (p : PCell) (d : Py.KDict PCell Unit) (nc : NoCollision p)
+    (h : order fuel p [] = some d) : ValidOrder p (Py.dictKeys d) ∧ d = (Py.dictKeys d).map (fun c => (c, ())) :=
+  Proofs.SrcOrderAny.src_order_valid_any fuel p d nc h
+
+/-- the keys of the dict the regenerated `Cell.order` returns are pairwise distinct whatever the hash function is (the re-insertion
+loop dedups by `__hash__`; no `NoCollision` needed) -/
+theorem c04_src_order_nodup (fuel : Nat) (p : PCell) (d : Py.KDict PCell Unit) (h : order fuel p [] = some d) :
+    ((Py.dictKeys d).map PCell.key).Nodup := by
   have := order_nodup fuel p d h
   simpa [NodupKeys, Py.dictKeys, Function.comp_def] using this
 
+theorem sum_refs_le : ∀ (l : List PCell), (∀ c ∈ l, c.refs.length ≤ 4) → (l.map (fun c => c.refs.length)).sum ≤ 4 * l.length
+  | [], _ => by simp
+  | c :: l, h => by
+    have := sum_refs_le l (fun x hx => h x (by simp [hx]))
+    have := h c (by simp)
+    simp only [List.map_cons, List.sum_cons, List.length_cons]; omega
+
 /-- the iteration budget `6·cells + 2` always suffices for the regenerated `while stack:` loop (cells with ≤ 4 references,
 no hash collision among the cells at hand): `Cell.order` terminates and returns a VALID ORDER (root first, each distinct cell once,
-references strictly forward). -/
+references strictly forward).  (Through the linear bound `1 + n + e` of the regenerated loop, `c19_src_order_linear`.) -/
 theorem c04_src_order_total (root : PCell) (fuel : Nat) (h4 : ∀ c ∈ subcells root, c.refs.length ≤ 4) (nc : NoCollision root)
     (hf : 6 * ((subcells root).map PCell.key).eraseDups.length + 2 ≤ fuel) :
     ∃ d, order fuel root [] = some d ∧ ValidOrder root (Py.dictKeys d) := by
-  obtain ⟨ord, ho, vo⟩ := order_fuel_valid root fuel h4 nc hf
-  refine ⟨dictOf ord, by rw [src_order_eq, ho]; rfl, ?_⟩
-  rwa [dictKeys_dictOf]
+  obtain ⟨ord, _, vo⟩ := order_fuel_valid root fuel h4 nc hf
+  have hc : ∀ d ∈ subcells root, d ∈ ord := by
+    intro d hd
+    obtain ⟨y, hy, hyk⟩ := List.mem_map.1 (vo.complete d hd)
+    rw [← nc y (vo.sound y hy) d hd hyk]; exact hy
+  have hlen : ord.length ≤ ((subcells root).map PCell.key).eraseDups.length := by
+    have := vo.nodup.length_le_of_subset (l₂ := ((subcells root).map PCell.key).eraseDups) (by
+      intro k hk
+      obtain ⟨y, hy, rfl⟩ := List.mem_map.1 hk
+      exact List.mem_eraseDups.2 (List.mem_map_of_mem (vo.sound y hy)))
+    simpa using this
+  have hsum := sum_refs_le ord (fun c hc' => h4 c (vo.sound c hc'))
+  obtain ⟨d, hd⟩ := Proofs.SrcOrderAny.src_order_linear fuel root nc ord vo.nodup hc (by omega)
+  exact ⟨d, hd, (c04_src_order_valid_any fuel root d nc hd).1⟩
 
-/-- `Cell.to_boc(has_idx, hash_crc32, has_cache_bits, flags)` regenerated = the hand model `PCell.toBoc` for every cell object
-(any DAG behind it), EVERY option set (also invalid ones) and every iteration budget: flags byte, size / offset widths, counts,
-root index, index of cumulative (doubled) end offsets, cell records, CRC-32C — the same bytes, the same decision to raise. -/
-theorem c04_src_to_boc (fuel : Nat) (p : PCell) (o : Opts) :
-    to_boc fuel p o.hasIdx o.hasCrc o.hasCache o.flags = p.toBoc fuel o := src_toBoc_eq fuel p o
+/-- `Cell.to_boc(has_idx, hash_crc32, has_cache_bits, flags)` regenerated, given what the regenerated `Cell.order` returned: the
+index lookups (`flattenCells`) and the byte layout (`emit`: flags byte, size / offset widths, counts, root index, index of
+cumulative (doubled) end offsets, cell records, CRC-32C) of the hand model applied to exactly the keys of that dict, in its
+iteration order — for every cell object, EVERY option set (also invalid ones) and every iteration budget. -/
+theorem c04_src_to_boc_any (fuel : Nat) (p : PCell) (d : Py.KDict PCell Unit) (nc : NoCollision p)
+    (h : order fuel p [] = some d) (o : Opts) :
+    to_boc fuel p o.hasIdx o.hasCrc o.hasCache o.flags =
+      (flattenCells (indexMap (Py.dictKeys d)) (Py.dictKeys d)).bind (emit · o) :=
+  (Proofs.SrcBocAny.src_toBoc_any fuel p d nc h o.hasIdx o.hasCrc o.hasCache o.flags).2
 
-/-- **C04 for the REGENERATED emitter**: for every spec-valid typed tree `t`, its object graph `p`, under the local no-collision
-hypothesis, whenever the regenerated `Cell.order` returns the dict `d` (it does with budget `6·cells+2`: `c04_src_order_total`),
-for each of the 6 valid option sets and within the format's limits: the keys of `d` are a valid order, the regenerated
-`Cell.to_boc` returns bytes, and the independent strict reader ACCEPTS them and decodes them to exactly `[t]`. -/
-theorem c04_src_conforms (H : Bytes → Bytes) (t : Cell) (wf : TreeWF H t) (ty : Typed t) (p : PCell)
+/-- **C04 for the REGENERATED emitter, independent of the visiting order** (the emitter conformance theorem composed from
+`c04_src_order_valid_any`, `c04_src_to_boc_any` and `c04_conforms_any_order`): for every spec-valid typed tree `t`, its object graph
+`p`, under the local no-collision hypothesis, whenever the regenerated `Cell.order` returns the dict `d` (it does with budget
+`6·cells+2`: `c04_src_order_total`), for each of the 6 valid option sets and within the format's limits: the keys of `d` are a valid
+order, the regenerated `Cell.to_boc` returns bytes, and the independent strict reader ACCEPTS them and decodes them to exactly
+`[t]`.  No step goes through the hand model of the traversal: a source change to another valid visiting order leaves this theorem
+proved (and breaks only the model equality of Properties/C04Model.lean). -/
+theorem c04_src_conforms_any_order (H : Bytes → Bytes) (t : Cell) (wf : TreeWF H t) (ty : Typed t) (p : PCell)
     (hb : Cell.build H t = some p) (nc : NoCollision p) (fuel : Nat) (d : Py.KDict PCell Unit) (h : order fuel p [] = some d)
     (o : Opts) (hv : o.valid = true) (hn : (Py.dictKeys d).length < 2 ^ 32)
     (hP : (payloadOf (sizeW (orderRecs (Py.dictKeys d))) (orderRecs (Py.dictKeys d))).length * 2 < 2 ^ 64) :
     ValidOrder p (Py.dictKeys d) ∧
     ∃ bs, to_boc fuel p o.hasIdx o.hasCrc o.hasCache o.flags = some bs ∧ strictParse H bs = some [toSCell t] := by
-  rw [src_order_eq] at h
-  cases ho : p.order fuel with
-  | none => rw [ho] at h; cases h
-  | some ord =>
-    rw [ho] at h
-    simp only [Option.map_some, Option.some.injEq] at h
-    subst h
-    rw [dictKeys_dictOf] at hn hP ⊢
-    rw [src_toBoc_eq]
-    exact c04_conforms H t wf ty p hb nc fuel ord ho o hv hn hP
+  have vo := (c04_src_order_valid_any fuel p d nc h).1
+  obtain ⟨recs, bs, h1, h2, h3⟩ := c04_conforms_any_order H t wf ty p hb nc (Py.dictKeys d) vo o hv hn hP
+  refine ⟨vo, bs, ?_, h3⟩
+  rw [c04_src_to_boc_any fuel p d nc h o, h1, Option.bind_some, h2]
+
+/-- the same under its earlier name (the statement did not change; the proof no longer uses the hand model of the traversal) -/
+theorem c04_src_conforms (H : Bytes → Bytes) (t : Cell) (wf : TreeWF H t) (ty : Typed t) (p : PCell)
+    (hb : Cell.build H t = some p) (nc : NoCollision p) (fuel : Nat) (d : Py.KDict PCell Unit) (h : order fuel p [] = some d)
+    (o : Opts) (hv : o.valid = true) (hn : (Py.dictKeys d).length < 2 ^ 32)
+    (hP : (payloadOf (sizeW (orderRecs (Py.dictKeys d))) (orderRecs (Py.dictKeys d))).length * 2 < 2 ^ 64) :
+    ValidOrder p (Py.dictKeys d) ∧
+    ∃ bs, to_boc fuel p o.hasIdx o.hasCrc o.hasCache o.flags = some bs ∧ strictParse H bs = some [toSCell t] :=
+  c04_src_conforms_any_order H t wf ty p hb nc fuel d h o hv hn hP
 
 /-- the same with existence and termination, nothing assumed but spec-validity and the local no-collision hypothesis: the tree
 can be built, the regenerated `Cell.order` returns with the driver's budget, and within the format's size limits every valid
@@ -402,13 +444,17 @@ theorem c04_src_conforms_total (H : Bytes → Bytes) (t : Cell) (wf : TreeWF H t
   obtain ⟨d, hd, vo⟩ := c04_src_order_total p fuel (fun c hc => (okp c hc).refs_le) nc hf
   refine ⟨d, hd, vo, ?_⟩
   intro o hv hn hP
-  exact (c04_src_conforms H t wf ty p hb nc fuel d hd o hv hn hP).2
+  exact (c04_src_conforms_any_order H t wf ty p hb nc fuel d hd o hv hn hP).2
 
-/-- non-vacuity, evaluated: on the diamond DAG (root → m1, m2 → shared leaf) the regenerated `Cell.order` returns the four
-distinct cells root first, and the regenerated `to_boc` with index + CRC + cache bits returns bytes -/
-example : (order 50 Proofs.BocOrder.Example.root []).map (fun d => (Py.dictKeys d).map PCell.key) =
-      some ([Proofs.BocOrder.Example.root, Proofs.BocOrder.Example.m1, Proofs.BocOrder.Example.m2,
-        Proofs.BocOrder.Example.leaf].map PCell.key) ∧
+/-- non-vacuity, evaluated: on the diamond DAG (root → m1, m2 → shared leaf) the regenerated `Cell.order` returns four distinct
+cells, the root first and the shared leaf last (the two middle cells in whichever order the source visits them), and the
+regenerated `to_boc` with index + CRC + cache bits returns bytes -/
+example : ((order 50 Proofs.BocOrder.Example.root []).map (fun d => (Py.dictKeys d).map PCell.key) =
+        some ([Proofs.BocOrder.Example.root, Proofs.BocOrder.Example.m1, Proofs.BocOrder.Example.m2,
+          Proofs.BocOrder.Example.leaf].map PCell.key) ∨
+      (order 50 Proofs.BocOrder.Example.root []).map (fun d => (Py.dictKeys d).map PCell.key) =
+        some ([Proofs.BocOrder.Example.root, Proofs.BocOrder.Example.m2, Proofs.BocOrder.Example.m1,
+          Proofs.BocOrder.Example.leaf].map PCell.key)) ∧
     (to_boc 50 Proofs.BocOrder.Example.root true true true 0).isSome = true := by
   constructor <;> decide +kernel
 
